@@ -176,10 +176,20 @@ def gen_unit_cases(r, n, tc):
             elif mm < 0.85:
                 t = G.gen_malformed(r, keys) + bytes(r.randint(128, 255) for _ in range(r.randint(0, 3)))
                 cases.append(("CA %s" % G.hx(t), {"kind": "CA"}))
-            else:
+            elif mm < 0.92:
                 sc = G.gen_struct_conf(r, keys[:6], r.randint(2, 7))
                 kw = r.choice(G.first_tokens(sc) or [b"width"])
                 cases.append(("KM %s %s" % (G.hx(sc), G.hx(G.rcase(r, kw))), {"kind": "KM"}))
+            else:
+                # parse modes and key_already_set: the same keyword, 2-5 calls on one object
+                calls = []
+                for _ in range(r.randint(2, 5)):
+                    mode = r.choice("srrondq")
+                    k = r.random()
+                    txt = (b"other 1\n" if k < 0.4 else b"width %s\n" % r.choice(G.NUMBER_TOKENS + G.BAD_NUMBER_TOKENS[:6]).encode() if k < 0.8
+                           else b"width\n" if k < 0.9 else b"width 1\nwidth 2\n")
+                    calls.append((mode, txt))
+                cases.append(("KV %s %s" % (G.hx("width"), "|".join("%s:%s" % (m_, G.hx(t)) for m_, t in calls)), {"kind": "KV", "calls": calls}))
         elif m < 0.95:
             # successive key_lookup calls on one parser object through one string object; half of the time the texts
             # have EQUAL length and the later one holds a keyword that the earlier one lacks at that place
@@ -1021,7 +1031,7 @@ def check(run):
         if kind == "KL":
             nontriv = io.startswith("found") or io.startswith("error")
             run.dist("unit:KL:" + meta.get("stream", "?").split(":")[0])
-        elif kind in ("IX", "TL", "CA", "KM"):
+        elif kind in ("IX", "TL", "CA", "KM", "KV"):
             nontriv = kind != "CA"
             run.dist("unit:%s%s" % (kind, (":" + meta["tag"] + ":" + io.split()[0]) if kind == "IX" else ""))
         elif kind == "KS":
@@ -1070,6 +1080,12 @@ def check(run):
                     bad = ("index:valid-file-misread", "the index file %r is read as %s, it defines %s" % (meta["text"], io, meta["groups"]))
             elif meta["tag"] in ("text-for-number", "zero", "negative", "glued-header", "no-bracket") and io.startswith("ok"):
                 bad = ("strict:index:%s-accepted" % meta["tag"], "the index file %r (%s) is accepted: %s" % (meta["text"], meta["tag"], io))
+        elif kind == "KV":
+            # a required keyword missing from the text of the FIRST call on a fresh object must be an error
+            outs = io.split(";")
+            m0, t0 = meta["calls"][0]
+            if m0 in "rq" and not t0.startswith(b"width") and len(outs) and outs[0].split("/")[1] != "1":
+                bad = ("strict:required-keyword-missing-accepted", "get_keyval with parse_required on a fresh parser object, keyword absent: no error (%s)" % outs[0])
         elif kind == "TL":
             exp = bytes((c + 32) if 65 <= c <= 90 else c for c in meta["text"])
             if G.hx(exp) != io:
@@ -1099,7 +1115,7 @@ def check(run):
         if bad:
             run.violation(bad[0], bad[1], {"kind": "unit", "case": c, "impl": io, "model": mo})
         if io != mo:
-            comp = "unit:" + {"KL": "key_lookup", "CB": "braces", "SC": "comments", "SS": "split_string", "PF": "strict:flat", "PC": "strict:flat", "NP": "strict:nested", "MS": "strict:sequence", "PS": "strict:sequence", "KS": "sequence", "IX": "strict:index", "KM": "key_lookup"}.get(kind, kind)
+            comp = "unit:" + {"KL": "key_lookup", "CB": "braces", "SC": "comments", "SS": "split_string", "PF": "strict:flat", "PC": "strict:flat", "NP": "strict:nested", "MS": "strict:sequence", "PS": "strict:sequence", "KS": "sequence", "IX": "strict:index", "KM": "key_lookup", "KV": "strict:modes"}.get(kind, kind)
             if kind in ("PF", "PC"):
                 # is it the pinned (lenient) value rule?  then the repaired defect is back: name it
                 rcl, ml, _ = V.run_lines(model, [c.replace(kind + " 1 ", kind + " 0 ", 1)])
